@@ -11,7 +11,7 @@ from . import c02, c03, c04, c06, c07
 from .resultrun import metric_objs
 
 INFO = {
-    "explanation": "Ingredients of the mirror property, each decided on the source: (R11.1) kernel identities in the VENN domain: IoU and Dice are symmetric under exchanging the masks, RVD(Y,X) = -r/(1+r) (delegated R06.1-R06.3, R06.7); ASSD is the mean of both orientations (R07.1); (R11.2) the one-to-one conflict guard of the threshold matcher tests BOTH sides, every eligible pair with free partners is assigned, candidates are complete and ordered by score only (R03.1, R03.2, R03.4, R03.6); (R11.3) fp and fn are each other's mirror under n_pred <-> n_ref, rq/pq are invariant (exact rational functions of the calculators); (R11.4) unmatched predictions receive labels that collide with nothing, so the number of prediction instances is preserved by relabelling and fp is not under-counted on one side only (R04.2); (R11.5) per-instance evaluation selects the same label on both sides (R02.5). Further delegated: R15.8, R15.7 (no memo keyed by a symmetric fingerprint). Round 8: (R11.6) every matcher of the family that is a pure function of its candidates' scores is run by the abstract interpreter on two families of four candidates, every ranking of four distinct rational scores, and on the mirrored candidate set; wherever both label maps are one-to-one they must be mirror images.",
+    "explanation": "Ingredients of the mirror property, each decided on the source: (R11.1) kernel identities in the VENN domain: IoU and Dice are symmetric under exchanging the masks, RVD(Y,X) = -r/(1+r) (delegated R06.1-R06.3, R06.7); ASSD is the mean of both orientations (R07.1); (R11.2) the one-to-one conflict guard of the threshold matcher tests BOTH sides, every eligible pair with free partners is assigned, candidates are complete and ordered by score only (R03.1, R03.2, R03.4, R03.6); (R11.3) fp and fn are each other's mirror under n_pred <-> n_ref, rq/pq are invariant (exact rational functions of the calculators); (R11.4) unmatched predictions receive labels that collide with nothing, so the number of prediction instances is preserved by relabelling and fp is not under-counted on one side only (R04.2); (R11.5) per-instance evaluation selects the same label on both sides (R02.5). Further delegated: R15.8, R15.7 (no memo keyed by a symmetric fingerprint). Round 8: (R11.6) every matcher of the family that is a pure function of its candidates' scores is run by the abstract interpreter on two families of four candidates, every ranking of four distinct rational scores, and on the mirrored candidate set; wherever both label maps are one-to-one they must be mirror images. Round 9: R03.8 spellings delegated (a matcher asked to be one-to-one is one-to-one however the option was spelled).",
     "trusted_base": ["trusted bases of the delegated rules (C02, C03, C04, C06, C07)"],
     "assumptions": ["the matching is uniquely determined (no equal scores)"],
     "not_decided": ["the emergent end-to-end symmetry on concrete inputs (follows from the ingredients; not executed)", "symmetry of the connected-component libraries"],
